@@ -150,6 +150,13 @@ pub fn for_each_case(
                 step(&s, "alias-amplification", stats, &mut n);
             }
         }
+        // collection keys nested in collection keys (every insertion hashes the whole key)
+        for d in [40usize, 400] {
+            let s = format!("{}a\n", "? ".repeat(d));
+            step(&s, "nested-keys", stats, &mut n);
+            let s = format!("{}a{}\n", "{ ? ".repeat(d.min(200)), " }".repeat(d.min(200)));
+            step(&s, "nested-keys", stats, &mut n);
+        }
         let mut s = String::from("l: &l [");
         s.push_str(&vec!["x"; 150].join(","));
         s.push_str("]\nu: [");
